@@ -571,3 +571,53 @@ def event_send_rules(ck, rule, aspects, shape_fn):
     if anybad:
         return
     shapes_backed_by_run(ck, shape_fn, 'Event.send')
+
+
+def weekdays_run(ck, rule):
+    """TimeDate._parse3 interpreted on weekday specifications (times / dates absent): every single
+    number -2..9, every digit string '0'..'9', some mixed sequences and strings with blanks.  Documented:
+    0..7 are accepted, 0 and 7 both mean Sunday and are stored as 7 (= isoweekday()); anything else is a
+    ValueError - it is never folded into the valid range (C07: the output follows the calendar; C13:
+    malformed input is rejected, not misread)."""
+    from sa.minieval import MiniEval, ModuleGlobals
+    prog = ck.prog
+    tdc = prog.cls('blocklib.timedate:TimeDate')
+    p3 = tdc.methods.get('_parse3')
+    ck.need(rule, p3 is not None, "TimeDate._parse3 not found")
+    params = [a.arg for a in p3.node.args.args]
+    if params and params[0] in ('self', 'cls'):
+        params = params[1:]
+    ck.need(rule, len(params) == 3, "TimeDate._parse3: expected (times, dates, weekdays)")
+
+    def resolve(text):
+        if text.isidentifier():
+            b = prog.lookup(p3.module, text)
+            if b is not None and b[0] == 'func':
+                return b[1].node
+        for pre in ('self.', 'cls.', 'TimeDate.'):
+            if text.startswith(pre) and text[len(pre):].isidentifier():
+                f_ = prog.resolve_method(tdc, text[len(pre):])
+                if f_ is not None and f_.cls is tdc and f_ is not p3:
+                    return f_.node
+        return None
+    cases = [[n] for n in range(-2, 10)] + [str(n) for n in range(10)] + \
+        [[1, 2, 3], [0, 7], [6, 8], '135', '07', '1 3\t5', '189', [], '']
+    bad = []
+    for spec in cases:
+        env = {params[0]: None, params[1]: None, params[2]: spec}
+        out = MiniEval(rule, env, resolve, globals_=ModuleGlobals(prog, p3.module, {})).run(p3.node.body)
+        ck.abstract_cases += 1
+        nums = [int(c) for c in spec if c not in ' \t'] if isinstance(spec, str) else list(spec)
+        valid = all(0 <= n <= 7 for n in nums)
+        if valid:
+            want = frozenset(7 if n == 0 else n for n in nums)
+            ok = out[0] == 'return' and isinstance(out[1], (tuple, list)) and len(out[1]) == 3 and \
+                out[1][2] is not None and set(out[1][2]) == set(want)
+        else:
+            ok = out[0] in ('raise', 'fault') and 'ValueError' in str(out[1])
+        if not ok and len(bad) < 3:
+            bad.append(f"weekdays={spec!r}: {out}; documented " +
+                       (f"{sorted(want)}" if valid else "ValueError"))
+    ck.ob(rule, f"{p3.fid} :: weekday specification", not bad,
+          f"0..7 accepted (0 and 7 stored as 7 = isoweekday()), everything else refused, on {len(cases)} "
+          "specifications" if not bad else '; '.join(bad), p3, p3.node)
